@@ -130,7 +130,7 @@ Fixpoint obj_eqb (a b : obj) : bool :=
          end) x y
   | VSS x, VSS y => list_eqb str_eqb x y
   | VNS x, VNS y => Nat.eqb (List.length x) (List.length y) && forallb (fun e => mem_f64 e y) x
-  | VBS x, VBS y => list_eqb str_eqb x y          (* [][]byte: order-sensitive *)
+  | VBS x, VBS y => Nat.eqb (List.length x) (List.length y) && forallb (fun e => mem_str e x) y   (* as sets (fix 54c4bb5) *)
   | _, _ => false
   end.
 
